@@ -143,6 +143,10 @@ class Obligation:
     def violation(self, role, what, witness, scenario=None, confirm=None, note=None):
         """a solver-found counterexample; `scenario` is replayed natively and `confirm(result)` says whether the
         native run shows the same misbehaviour"""
+        flt = getattr(self.chk, 'role_filter', None)
+        if flt is not None and not flt(role):
+            self.filtered = getattr(self, 'filtered', 0) + 1      # not this property's concern (e.g. a wrong value inside a panic-freedom umbrella)
+            return
         self.candidates.append({'role': role, 'what': what, 'witness': witness, 'scenario': scenario, 'confirm': confirm, 'note': note})
 
     def inconclusive(self, reason):
